@@ -48,7 +48,7 @@ for job in jobs:
         except Exception as e:
             obs.append(['exc', type(e).__name__, 'no entry point']); continue
         obs.append(realrun.call_parse(m, fn, realrun.to_text(text, job.get('bytes', False)), pos, True))
-    out[job['module']] = {'import': ['ok'], 'foreign': foreign, 'obs': obs}
+    out[job['module']] = {'import': ['ok'], 'foreign': foreign, 'obs': obs, 'doc': m.__doc__}
 json.dump(out, sys.stdout)
 '''
 
@@ -169,7 +169,7 @@ def c11_extends_worker(case):
     of its saved source imported in a separate interpreter (next to the saved source of the parent)."""
     cid, pk, ck = case['id'], case['parent'], case['child']
     par, chi = 'vg_c11x_par_%d' % cid, 'vg_c11x_chi_%d' % cid
-    pdesc = 'grammar %s\n%sstart = Word+\nWord = /[a-z]+/\n' % (par, EXT_PARENT[pk])
+    pdesc = 'grammar %s\n%sstart = Word+\nWord = /[a-z]+/\nQuoted = """q""" | \'\'\'r\'\'\'\n' % (par, EXT_PARENT[pk])
     cdesc = 'grammar %s extends %s\n%sPair = [Word, ",", Word]\nList = Word /? ","\n' % (chi, par, EXT_CHILD[ck])
     runs = [[e, [ord(ch) for ch in t], 0] for e in ('start', 'Pair', 'List') for t in EXT_TEXTS]
     res = {'desc': pdesc + '\n' + cdesc}
@@ -181,12 +181,14 @@ def c11_extends_worker(case):
             res['build'] = list(bc)
             return {'id': cid, 'desc': res['desc'], 'build': ['ok'], 'obs': res}
         mp, mc = bp[1], bc[1]
+        res['docs'] = [mp.__doc__, mc.__doc__]
         res['memory'] = [realrun.call_parse(mc, mc.parse if e == 'start' else getattr(mc, e).parse,
                                             realrun.to_text(t), p, True)[:3] for e, t, p in runs]
         for name, m in ((par, mp), (chi, mc)):
             with open(os.path.join(d, name + '.py'), 'w') as f:
                 f.write(m._source_code)
-        jobs = [{'module': chi, 'runs': runs, 'start': 'start', 'bytes': False, 'allowed': [par]}]
+        jobs = [{'module': chi, 'runs': runs, 'start': 'start', 'bytes': False, 'allowed': [par]},
+                {'module': par, 'runs': [], 'start': 'start', 'bytes': False, 'allowed': []}]
         with open(os.path.join(d, 'jobs.json'), 'w') as f:
             json.dump(jobs, f)
         with open(os.path.join(d, 'driver.py'), 'w') as f:
@@ -198,6 +200,7 @@ def c11_extends_worker(case):
                 res['exec'] = {'driver-failed': (p.stderr or '')[-600:]}
             else:
                 res['saved'] = json.loads(p.stdout).get(chi, {'import': ['missing']})
+                res['saved_parent'] = json.loads(p.stdout).get(par, {'import': ['missing']})
         except subprocess.TimeoutExpired:
             res['exec'] = {'driver-failed': 'timeout'}
     finally:
@@ -368,6 +371,11 @@ def run(chk):
         if sv.get('foreign'):
             chk.violation('the saved source imports modules other than the standard library and its parent: %s' % sv['foreign'],
                           {'desc': desc, 'foreign': sv['foreign']})
+        # the description travels with the module (a grammar that extends the saved module is compiled from it)
+        for who, mem_doc, saved in (('child', res['docs'][1], sv), ('parent', res['docs'][0], res.get('saved_parent') or {})):
+            if saved.get('import', ['ok'])[0] == 'ok' and (saved.get('doc') or '').strip() != (mem_doc or '').strip():   # (blank lines at the ends aside)
+                chk.violation('__doc__ of the saved source of the %s differs from the description the in-memory module carries: '
+                              '%r vs %r' % (who, (saved.get('doc') or '')[:120], (mem_doc or '')[:120]), {'desc': desc, 'who': who})
         for rrun, a, b in zip(res['runs'], res['memory'], sv['obs']):
             chk.count([desc, 'extends', rrun], a[0] == 'ok')
             sa = a[:3] if a[0] == 'ok' else a[:2]
